@@ -69,13 +69,20 @@ def validate(path_or_bytes):
                 ids[i]=(r.get('Type'),full,False)
             else: ids[i]=(r.get('Type'),tgt,True)
         rels[src]=ids
-    # every r:id used inside a part resolves in that part's rels
+    # every r:id used inside a part resolves in that part's rels, to a relationship of the kind the element asks for
+    RTYPE={('sheet','id'):('/worksheet','/chartsheet','/dialogsheet','/macrosheet'),('pivotCache','id'):('/pivotCacheDefinition',),('externalReference','id'):('/externalLink',),
+           ('drawing','id'):('/drawing',),('legacyDrawing','id'):('/vmlDrawing',),('legacyDrawingHF','id'):('/vmlDrawing',),('tablePart','id'):('/table',),('hyperlink','id'):('/hyperlink',),
+           ('pageSetup','id'):('/printerSettings',),('blip','embed'):('/image',),('chart','id'):('/chart',),('pivotCacheDefinition','id'):('/pivotCacheRecords',)}
     for n,t in trees.items():
         if n.endswith('.rels') or n=='[Content_Types].xml': continue
         for el in t.iter():
             for k,v in el.attrib.items():
                 if k.startswith(R):
                     if v not in rels.get(n,{}): bad('dangling-rid','%s <%s %s=%s>'%(n,el.tag.split('}')[-1],k.split('}')[-1],v))
+                    else:
+                        want=RTYPE.get((el.tag.split('}')[-1],k.split('}')[-1]))
+                        ty=rels[n][v][0] or ''
+                        if want and not ty.endswith(want): bad('rid-wrong-kind','%s <%s %s=%s> resolves to a relationship of type %s'%(n,el.tag.split('}')[-1],k.split('}')[-1],v,ty.rsplit('/',1)[-1]))
     wbn=[p for (ty,p,_) in rels.get('',{}).values() if ty.endswith('/officeDocument')]
     if len(wbn)!=1: bad('no-workbook',''); return V
     wb=trees[wbn[0]]; wrels=rels.get(wbn[0],{})
